@@ -37,7 +37,8 @@ class Rng:
     M = (1 << 64) - 1
 
     def __init__(self, seed):
-        self.s = (seed * 0x9E3779B97F4A7C15 + 0x1234567) & self.M
+        # hash the seed: consecutive seeds must not give shifted copies of one stream
+        self.s = int.from_bytes(hashlib.sha256(("seed:%d" % seed).encode()).digest()[:8], "big")
 
     def next(self):
         self.s = (self.s + 0x9E3779B97F4A7C15) & self.M
